@@ -176,6 +176,10 @@ func sidVariants41() []sidVariant41 {
 		{"directory as current filehandle", "directory", func(e *sweep41, l *fakeLeaf) []nfsv4.NfsArgop4 { return []nfsv4.NfsArgop4{rootfh()} }, id},
 		{"the current state ID although the COMPOUND has none", "no-current-stateid", same, func(e *sweep41, s nfsv4.Stateid4) nfsv4.Stateid4 { return currentSID }},
 		{"a state ID with non-zero trailing bytes", "never-issued", same, func(e *sweep41, s nfsv4.Stateid4) nfsv4.Stateid4 { s.Other[11] = 1; return s }},
+		// The other two special state IDs: legitimate for READ / WRITE /
+		// SETATTR (anonymous access), meaningless for everything else.
+		{"the anonymous state ID", "special", same, func(e *sweep41, s nfsv4.Stateid4) nfsv4.Stateid4 { return anonymousSID }},
+		{"the READ bypass state ID", "special", same, func(e *sweep41, s nfsv4.Stateid4) nfsv4.Stateid4 { return bypassSID }},
 	}
 }
 
@@ -321,6 +325,99 @@ func catalogue41() []bad41 {
 	add("TEST_STATEID of junk", func(e *sweep41) nfsv4.Nfsstat4 {
 		return e.seq("TEST_STATEID(junk)", 1, "", &nfsv4.NfsArgop4_OP_TEST_STATEID{OptestStateid: nfsv4.TestStateid4args{TsStateids: []nfsv4.Stateid4{neverIssued41(), anonymousSID, bypassSID, currentSID, withSeq(e.a().sid, 1), withSeq(e.l1().sid, -1)}}})
 	})
+
+	// ---- the current state ID across a change of the current filehandle ----
+	// {[pre,] setter (makes a state ID of file a the current state ID),
+	// changer (makes b the current filehandle), user(current state ID)}.
+	type csidSetter struct {
+		name string
+		ops  func(e *sweep41) []nfsv4.NfsArgop4
+	}
+	setters := []csidSetter{
+		{"OPEN a by O1", func(e *sweep41) []nfsv4.NfsArgop4 {
+			return []nfsv4.NfsArgop4{rootfh(), &nfsv4.NfsArgop4_OP_OPEN{Opopen: nfsv4.Open4args{ShareAccess: accRead, ShareDeny: nfsv4.OPEN4_SHARE_DENY_NONE,
+				Owner: nfsv4.OpenOwner4{Clientid: e.c.id, Owner: []byte("O1")}, Openhow: openflag(howNoCreate), Claim: &nfsv4.OpenClaim4_CLAIM_NULL{File: "a"}}}}
+		}},
+		{"LOCK a by L1", func(e *sweep41) []nfsv4.NfsArgop4 {
+			return []nfsv4.NfsArgop4{putfh(e.a().leaf.handle), &nfsv4.NfsArgop4_OP_LOCK{Oplock: nfsv4.Lock4args{Locktype: nfsv4.WRITE_LT, Offset: 0, Length: 1,
+				Locker: &nfsv4.Locker4_FALSE{LockOwner: nfsv4.ExistLockOwner4{LockStateid: e.l1().sid}}}}}
+		}},
+		{"LOCKU a by L1", func(e *sweep41) []nfsv4.NfsArgop4 {
+			return []nfsv4.NfsArgop4{putfh(e.a().leaf.handle), &nfsv4.NfsArgop4_OP_LOCKU{Oplocku: nfsv4.Locku4args{Locktype: nfsv4.WRITE_LT, LockStateid: e.l1().sid, Offset: 1, Length: 1}}}
+		}},
+	}
+	type csidChanger struct {
+		name      string
+		pre, post func(e *sweep41) []nfsv4.NfsArgop4
+	}
+	fhB := func(e *sweep41) []nfsv4.NfsArgop4 { return []nfsv4.NfsArgop4{putfh(e.b().leaf.handle)} }
+	changers := []csidChanger{
+		{"PUTFH b", none, fhB},
+		{"PUTROOTFH, LOOKUP b", none, func(e *sweep41) []nfsv4.NfsArgop4 { return []nfsv4.NfsArgop4{rootfh(), lookupOp("b")} }},
+		{"SAVEFH, PUTFH b", none, func(e *sweep41) []nfsv4.NfsArgop4 {
+			return []nfsv4.NfsArgop4{&nfsv4.NfsArgop4_OP_SAVEFH{}, putfh(e.b().leaf.handle)}
+		}},
+		{"RESTOREFH of b (saved before)", func(e *sweep41) []nfsv4.NfsArgop4 {
+			return []nfsv4.NfsArgop4{putfh(e.b().leaf.handle), &nfsv4.NfsArgop4_OP_SAVEFH{}}
+		}, func(e *sweep41) []nfsv4.NfsArgop4 { return []nfsv4.NfsArgop4{&nfsv4.NfsArgop4_OP_RESTOREFH{}} }},
+	}
+	for _, se := range setters {
+		se := se
+		for _, ch := range changers {
+			ch := ch
+			for _, u := range csidUsers() {
+				u := u
+				name := fmt.Sprintf("%s, %s, then %s with the current state ID", se.name, ch.name, u.name)
+				add(name, func(e *sweep41) nfsv4.Nfsstat4 {
+					ops := append(append(ch.pre(e), se.ops(e)...), ch.post(e)...)
+					idx := 1 + len(ops)
+					cw := watchCSID(e.a().leaf, e.b().leaf)
+					res := e.c.sequence(e.f, name, append(ops, u.op(e.c))...)
+					if res == nil {
+						return nfsv4.NFS4ERR_BADSESSION
+					}
+					e.absorb(res)
+					if idx < len(res.Resarray) {
+						cw.judge(e.f, name, u, opStatus(res, idx))
+					}
+					return opStatus(res, idx)
+				})
+			}
+		}
+		// The legitimate uses: no change of the filehandle in between (must
+		// work like the explicit state ID), and the filehandle saved and
+		// restored together with its current state ID (accepted either way).
+		for _, k := range []ioKind{ioRead, ioWrite} {
+			k := k
+			name := fmt.Sprintf("%s, then %s with the current state ID (same filehandle)", se.name, k)
+			add(name, func(e *sweep41) nfsv4.Nfsstat4 {
+				ops := se.ops(e)
+				res := e.c.sequence(e.f, name, append(ops, ioOp(k, currentSID))...)
+				if res == nil {
+					return nfsv4.NFS4ERR_BADSESSION
+				}
+				e.absorb(res)
+				if res.Status != nfsv4.NFS4_OK && opStatus(res, 0) == nfsv4.NFS4_OK {
+					e.f.FailP("C18", "entitled-refused/current-stateid", "NFSv4.1 {%s, %s(current state ID)} on the file the state ID belongs to (open read+write) failed with %d after %d results", se.name, k, res.Status, len(res.Resarray))
+				}
+				return res.Status
+			})
+			name2 := fmt.Sprintf("%s, SAVEFH, PUTFH b, RESTOREFH, then %s with the current state ID", se.name, k)
+			add(name2, func(e *sweep41) nfsv4.Nfsstat4 {
+				ops := append(se.ops(e), &nfsv4.NfsArgop4_OP_SAVEFH{}, putfh(e.b().leaf.handle), &nfsv4.NfsArgop4_OP_RESTOREFH{})
+				bAll := e.b().leaf.allCounters()
+				res := e.c.sequence(e.f, name2, append(ops, ioOp(k, currentSID))...)
+				if res == nil {
+					return nfsv4.NFS4ERR_BADSESSION
+				}
+				e.absorb(res)
+				if after := e.b().leaf.allCounters(); after != bAll {
+					e.f.FailP("C18", "honoured-current-stateid-other-file", "NFSv4.1 {%s}: the I/O at the restored filehandle of a touched b: %s -> %s", name2, bAll, after)
+				}
+				return res.Status
+			})
+		}
+	}
 
 	// Wrong order.
 	add("CLOSE twice in one COMPOUND", func(e *sweep41) nfsv4.Nfsstat4 {
